@@ -1082,3 +1082,117 @@ func c13ReflectListsTestKey(ctx *core.Ctx, r *core.Report) {
 	}
 	r.Floor("guard-backing(reflect list nodes)", n, 2)
 }
+
+// c07LeadingGroupKept: expandPaths multiplies the paths read so far with the
+// paths of a group. Read so far may be nothing — the expression starts with the
+// group — and nothing times anything is nothing: the function has a branch for
+// the empty case that takes over the group's paths.
+func c07LeadingGroupKept(ctx *core.Ctx, r *core.Report) {
+	f := ctx.Method("node", "PathMatchExpression", "expandPaths")
+	if f == nil || len(f.Params) < 1 {
+		r.Fatalf("anchor node.PathMatchExpression.expandPaths not found")
+		return
+	}
+	ok := false
+	core.Instrs(f, func(_ *ssa.BasicBlock, in ssa.Instruction) {
+		ifi, isIf := in.(*ssa.If)
+		if !isIf {
+			return
+		}
+		bo, isBo := ifi.Cond.(*ssa.BinOp)
+		if !isBo || (bo.Op != token.EQL && bo.Op != token.NEQ && bo.Op != token.GTR) {
+			return
+		}
+		if k, isC := core.ConstInt(bo.Y); !isC || k != 0 {
+			return
+		}
+		if lc, isCall := bo.X.(*ssa.Call); isCall {
+			if bi, isB := lc.Common().Value.(*ssa.Builtin); isB && bi.Name() == "len" && strings.HasSuffix(paramFieldChain(lc.Common().Args[0]), ".paths") && strings.HasPrefix(paramFieldChain(lc.Common().Args[0]), f.Params[0].Name()+".") {
+				ok = true
+			}
+		}
+	})
+	r.Ob("leading-group-kept", "node.PathMatchExpression.expandPaths", ctx.Pos(f.Pos()), ok,
+		"expandPaths has no case for an expression that has no paths yet: a group at the very start (fields=(a;b)) is multiplied with nothing and vanishes — the read comes back unfiltered")
+}
+
+// c13HandlersKnowTheirNode: the container/list handlers of nodeutil.Node call back
+// into their node (ref.NewObject, ref.options …). Every handler value that is
+// built stores that node: a composite literal that leaves `ref` out is a nil
+// dereference the first time the handler has to create something.
+func c13HandlersKnowTheirNode(ctx *core.Ctx, r *core.Report) {
+	n := 0
+	for _, f := range scopeFuncs(ctx, "nodeutil") {
+		core.Instrs(f, func(_ *ssa.BasicBlock, in ssa.Instruction) {
+			al, ok := in.(*ssa.Alloc)
+			if !ok || al.Comment != "complit" {
+				return
+			}
+			named := core.NamedOf(al.Type())
+			if named == nil || named.Obj().Pkg() == nil || named.Obj().Pkg().Path() != core.Full("nodeutil") {
+				return
+			}
+			st, ok := named.Underlying().(*types.Struct)
+			if !ok {
+				return
+			}
+			hasRef := false
+			for i := 0; i < st.NumFields(); i++ {
+				if st.Field(i).Name() == "ref" {
+					if p, isPtr := st.Field(i).Type().(*types.Pointer); isPtr {
+						if nn := core.NamedOf(p); nn != nil && nn.Obj().Name() == "Node" {
+							hasRef = true
+						}
+					}
+				}
+			}
+			if !hasRef {
+				return
+			}
+			n++
+			_, set := fieldStores(al, st)["ref"]
+			r.Ob("guard-backing", core.FnName(f)+"/"+named.Obj().Name()+"{ref}", ctx.Pos(al.Pos()), set,
+				"a "+named.Obj().Name()+" is built without its node (ref): it calls back into the node when it has to create a child, which is then a nil dereference (an edit that creates a container under a map-backed nodeutil.Node)")
+		})
+	}
+	r.Floor("guard-backing(handler literals)", n, 3)
+}
+
+// c13ProbeHasNoSelection: nodeutil.Node.exists asks its own Child/Field callbacks
+// with a request that carries no selection; the callbacks reached that way test
+// the selection for nil before reading through it.
+func c13ProbeHasNoSelection(ctx *core.Ctx, r *core.Report) {
+	f := ctx.Method("nodeutil", "Node", "DoGetChild")
+	if f == nil {
+		r.Fatalf("anchor nodeutil.Node.DoGetChild not found")
+		return
+	}
+	n := 0
+	core.Instrs(f, func(b *ssa.BasicBlock, in ssa.Instruction) {
+		fa, ok := in.(*ssa.FieldAddr)
+		if !ok {
+			return
+		}
+		// a field of *Selection read through r.Selection
+		if nn := core.NamedOf(fa.X.Type()); nn == nil || nn.Obj().Name() != "Selection" {
+			return
+		}
+		if !strings.HasSuffix(paramFieldChain(fa.X), ".Selection") {
+			return
+		}
+		n++
+		guarded := false
+		for _, pc := range core.PathConds(b) {
+			bo, isBo := pc.V.(*ssa.BinOp)
+			if !isBo || !core.IsNilConst(bo.Y) || !strings.HasSuffix(paramFieldChain(bo.X), ".Selection") {
+				continue
+			}
+			if (bo.Op == token.NEQ && pc.True) || (bo.Op == token.EQL && !pc.True) {
+				guarded = true
+			}
+		}
+		r.Ob("guard-backing", fmt.Sprintf("nodeutil.Node.DoGetChild/selection-tested#%d", n), ctx.Pos(fa.Pos()), guarded,
+			"DoGetChild reads through the request's selection without testing it: the presence probe of nodeutil.Node.exists sends a request without one, so a list inside a case makes every read of the container panic")
+	})
+	r.Floor("guard-backing(DoGetChild selection reads)", n, 1)
+}
